@@ -905,4 +905,143 @@ theorem topoEq_refitLoop (cur : Nat → Aabb3 K) (margin : K) (fuel : Nat) :
 theorem topoEq_refit (q : Q K) (cur : Nat → Aabb3 K) (margin : K) (r : Q K × Nat) (h : refit q cur margin = some r) :
     TopoEq q r.1 := topoEq_refitLoop cur margin _ _ _ _ _ h
 
+theorem all_range_iff (n : Nat) (f : Nat → Bool) : (List.range n).all f = true ↔ ∀ i, i < n → f i = true := by
+  simp [List.all_eq_true, List.mem_range]
+
+theorem isLive_iff (q : Q K) (n : Nat) : isLive q n = true ↔ Live q n := by
+  simp [isLive, Live]
+
+theorem climb_mono (q : Q K) : ∀ (f m k : Nat), climb q f m = some k → climb q (f + 1) m = some k := by
+  intro f
+  induction f with
+  | zero =>
+    intro m k h
+    cases m with
+    | zero => simp [climb] at h ⊢; exact h
+    | succ m => simp [climb] at h
+  | succ f ih =>
+    intro m k h
+    cases m with
+    | zero => simp [climb] at h ⊢; exact h
+    | succ m =>
+      simp only [climb] at h ⊢
+      cases hn : q.nodes[m + 1]? with
+      | none => rw [hn] at h; cases h
+      | some nd =>
+        rw [hn] at h
+        simp only at h ⊢
+        cases hc : climb q f nd.parent with
+        | none => rw [hc] at h; cases h
+        | some j => rw [hc] at h; rw [ih _ _ hc]; exact h
+
+theorem checkFree_nodup : ∀ l : List Nat, checkFree l = true → l.Nodup := by
+  intro l
+  induction l with
+  | nil => intro _; exact List.nodup_nil
+  | cons x xs ih =>
+    intro h
+    simp only [checkFree, Bool.and_eq_true, Bool.not_eq_true', List.contains_eq_mem, decide_eq_false_iff_not] at h
+    exact List.nodup_cons.2 ⟨h.1, ih h.2⟩
+
+/-- **the executable check is sound**: a state accepted by `checkInv` (what the oracle evaluates on every dumped Rust
+state) satisfies the invariant `Inv` the theorems are about -/
+theorem checkInv_sound (q : Q K) (h : checkInv q = true) : Inv q := by
+  simp only [checkInv, Bool.and_eq_true, decide_eq_true_eq] at h
+  obtain ⟨⟨⟨⟨⟨⟨⟨⟨⟨hroot, hchild⟩, hpar⟩, hlp⟩, hpl⟩, hdepth⟩, hfree⟩, hfb⟩, hsmall⟩, hpsmall⟩ := h
+  refine ⟨?_, ?_, ?_, ?_, ?_, ?_, checkFree_nodup _ hfree, ?_, hsmall, hpsmall⟩
+  · -- root
+    simp only [checkRoot, Bool.or_eq_true, Bool.and_eq_true, beq_iff_eq] at hroot
+    rcases hroot with h0 | ⟨h1, h2⟩
+    · exact Or.inl h0
+    · right
+      cases hq : q.nodes[0]? with
+      | none => rw [hq] at h1; cases h1
+      | some r => rw [hq] at h1; exact ⟨⟨r, rfl, by simpa using h1⟩, (isLive_iff q 0).1 h2⟩
+  · -- child
+    intro n nd hn hlive hleaf l c hc hcm
+    have hlt := (Array.getElem?_eq_some_iff.mp hn).1
+    have := (all_range_iff _ _).1 hchild n hlt
+    simp only [hn, Bool.or_eq_true, Bool.not_eq_true'] at this
+    rcases this with (hl | hl) | hl
+    · exact absurd ((isLive_iff q n).2 hlive) (by simp [hl])
+    · rw [hleaf] at hl; cases hl
+    · have hl4 : l < 4 := by rcases vec4_lane _ _ _ hc with e | e | e | e <;> omega
+      have := (all_range_iff _ _).1 hl l hl4
+      simp only [hc, Bool.or_eq_true, beq_iff_eq, Bool.and_eq_true, bne_iff_ne] at this
+      rcases this with e | ⟨⟨c0, cl⟩, hcn⟩
+      · exact absurd e hcm
+      · cases hq : q.nodes[c]? with
+        | none => rw [hq] at hcn; cases hcn
+        | some cn =>
+          rw [hq] at hcn
+          simp only [Bool.and_eq_true, beq_iff_eq] at hcn
+          exact ⟨c0, (isLive_iff q c).1 cl, cn, rfl, hcn.1, hcn.2⟩
+  · -- par
+    intro n nd hn hlive hn0
+    have hlt := (Array.getElem?_eq_some_iff.mp hn).1
+    have := (all_range_iff _ _).1 hpar n hlt
+    simp only [hn, Bool.or_eq_true, Bool.not_eq_true', beq_iff_eq, Bool.and_eq_true] at this
+    rcases this with (hl | hl) | ⟨pl, hpn⟩
+    · exact absurd ((isLive_iff q n).2 hlive) (by simp [hl])
+    · exact absurd hl hn0
+    · cases hq : q.nodes[nd.parent]? with
+      | none => rw [hq] at hpn; cases hpn
+      | some pn =>
+        rw [hq] at hpn
+        simp only [Bool.and_eq_true, Bool.not_eq_true', beq_iff_eq] at hpn
+        exact ⟨(isLive_iff q _).1 pl, pn, rfl, hpn.1, hpn.2⟩
+  · -- leafProxy
+    intro n nd hn hlive hleaf l p hc hcm
+    have hlt := (Array.getElem?_eq_some_iff.mp hn).1
+    have := (all_range_iff _ _).1 hlp n hlt
+    simp only [hn, Bool.or_eq_true, Bool.not_eq_true'] at this
+    rcases this with (hl | hl) | hl
+    · exact absurd ((isLive_iff q n).2 hlive) (by simp [hl])
+    · rw [hleaf] at hl; cases hl
+    · have hl4 : l < 4 := by rcases vec4_lane _ _ _ hc with e | e | e | e <;> omega
+      have := (all_range_iff _ _).1 hl l hl4
+      simp only [hc, Bool.or_eq_true, beq_iff_eq] at this
+      rcases this with e | hpr
+      · exact absurd e hcm
+      · cases hq : q.proxies[p]? with
+        | none => rw [hq] at hpr; cases hpr
+        | some pr =>
+          rw [hq] at hpr
+          simp only [Bool.and_eq_true, beq_iff_eq] at hpr
+          exact ⟨pr, rfl, hpr.1, hpr.2⟩
+  · -- proxyLeaf
+    intro p pr hp hne
+    have hlt := (Array.getElem?_eq_some_iff.mp hp).1
+    have := (all_range_iff _ _).1 hpl p hlt
+    simp only [hp, Bool.or_eq_true, beq_iff_eq, Bool.and_eq_true] at this
+    rcases this with e | ⟨pl, hnd⟩
+    · exact absurd e hne
+    · cases hq : q.nodes[pr.node]? with
+      | none => rw [hq] at hnd; cases hnd
+      | some nd =>
+        rw [hq] at hnd
+        simp only [Bool.and_eq_true, beq_iff_eq] at hnd
+        exact ⟨(isLive_iff q _).1 pl, nd, rfl, hnd.1, hnd.2⟩
+  · -- depth
+    refine ⟨fun n => (climb q q.nodes.size n).getD 0, by cases hs : q.nodes.size <;> simp [climb], ?_⟩
+    intro n nd hn hlive hn0
+    have hlt := (Array.getElem?_eq_some_iff.mp hn).1
+    have := (all_range_iff _ _).1 hdepth n hlt
+    simp only [Bool.or_eq_true, Bool.not_eq_true'] at this
+    rcases this with hl | hsome
+    · exact absurd ((isLive_iff q n).2 hlive) (by simp [hl])
+    · obtain ⟨m, rfl⟩ : ∃ m, n = m + 1 := ⟨n - 1, by omega⟩
+      obtain ⟨f, hf⟩ : ∃ f, q.nodes.size = f + 1 := ⟨q.nodes.size - 1, by omega⟩
+      rw [hf] at hsome ⊢
+      simp only [climb, hn] at hsome ⊢
+      cases hc : climb q f nd.parent with
+      | none => rw [hc] at hsome; simp at hsome
+      | some j =>
+        rw [climb_mono q f _ j hc]
+        simp
+  · -- freeBound
+    intro n hn
+    simp only [checkFreeBound, List.all_eq_true, decide_eq_true_eq] at hfb
+    exact hfb n hn
+
 end C08
